@@ -412,6 +412,9 @@ func cmdCheck(args []string) int {
 	if *tier == "thorough" {
 		sampleCap = 400
 	}
+	if n, err := strconv.Atoi(os.Getenv("VERIF_SAMPLE_CAP")); err == nil && n > 0 {
+		sampleCap = n // development: replay more (or all) passing paths natively
+	}
 	inconclusive := []string{}
 	for _, r := range runs {
 		for _, hr := range r.rs {
